@@ -68,6 +68,10 @@ Definition spec_step (fl : bool) (cap : nat) (s : sstate) (o : op) : option ssta
   | FlatInsertRv t x | FlatInsertCr t x | FlatEmplace t x =>
       if set_mem x (sget t s) then Some s else chk (1 <=? room t) (sput t s (set_ins (sget t s) x))
   | SetEraseKey t x | FlatEraseKey t x => Some (sput t s (filter (fun v => negb (Z.eqb v x)) (sget t s)))
+  | FlatExtract t => Some (sput t s [])
+  | FlatReplace t xs => chk (length xs <=? cap) (sput t s xs)
+  | CtorN k | CtorNVal k _ => chk (k <=? cap) s
+  | CtorRange xs => chk (length xs <=? cap) s
   end.
 
 Fixpoint spec_run (fl : bool) (cap : nat) (s : sstate) (ops : list op) : option sstate :=
